@@ -36,6 +36,12 @@ var Extras = map[string][]func(*engine.Ctx){}
 
 func extend(id string, f func(*engine.Ctx)) { Extras[id] = append(Extras[id], f) }
 
+// MetaExtras holds one sentence per extra rule set, appended to the property's
+// manifest text ("Additional rules: …").
+var MetaExtras = map[string][]string{}
+
+func metaExtra(id, sentence string) { MetaExtras[id] = append(MetaExtras[id], sentence) }
+
 // Run executes a property's check and its extras.
 func Run(id string, c *engine.Ctx) bool {
 	fn, ok := Registry[id]
